@@ -90,14 +90,31 @@ def run(rep):
     rep.check(bool(ini) and cnt not in cnorm.writes({"kind": "CompoundStmt", "inner": [s for s in cq.preceding(top, loop) if s not in ini]})[0],
               "R16.a", file, "c_intersect", "counter starts at 0", "", line=fi["line"])
     calls_ = find_all(loop, lambda n: n.get("kind") == "CallExpr" and text(n["inner"][0]) == "c_coord2cell")
-    okc, cellname = False, None
+    okc, cellname, scalar_cell = False, None, False
     if len(calls_) == 1:
         args = calls_[0]["inner"][1:]
         okc = len(args) == 8 and all(cq.same_expr(args[k_], w) for k_, w in enumerate(("nrows", "ncols", "xll", "yll", "csz", "1")))
         if okc:
-            xyname, cellname = text(args[6]), text(args[7])
-            xs = {show(e.idx): e for e in ce.effects if e.arr == xyname and e.op == "=" and not e.conds}
-            okc = set(xs) >= {"0", "1"} and cq.same_expr(xs["0"].val, f"xy_area[2*{iv}]") and cq.same_expr(xs["1"].val, f"xy_area[2*{iv}+1]")
+            from ..cfront import strip as _strip
+            a6, a7 = _strip(args[6]), _strip(args[7])
+            scalar_cell = a7.get("kind") == "UnaryOperator" and a7.get("opcode") == "&" and _strip(a7["inner"][0]).get("kind") == "DeclRefExpr"
+            cellname = text(a7["inner"][0]) if scalar_cell else text(args[7])
+            in_place = a6.get("kind") == "UnaryOperator" and a6.get("opcode") == "&" and _strip(a6["inner"][0]).get("kind") == "ArraySubscriptExpr" and \
+                text(_strip(a6["inner"][0])["inner"][0]).replace(" ", "") == "xy_area" and cq.same_expr(_strip(a6["inner"][0])["inner"][1], f"2*{iv}")
+            def _addr_of_point(x):
+                x = _strip(x)
+                return x.get("kind") == "UnaryOperator" and x.get("opcode") == "&" and _strip(x["inner"][0]).get("kind") == "ArraySubscriptExpr" and \
+                    text(_strip(x["inner"][0])["inner"][0]).replace(" ", "") == "xy_area" and cq.same_expr(_strip(x["inner"][0])["inner"][1], f"2*{iv}")
+            if not in_place and a6.get("kind") == "DeclRefExpr" and a6.get("type", {}).get("qualType", "").rstrip().endswith("*"):
+                # a pointer temporary set once in the iteration to the address of the point
+                sets = find_all(loop, lambda n: n.get("kind") == "BinaryOperator" and n.get("opcode") == "=" and text(n["inner"][0]).strip() == text(a6).strip())
+                in_place = len(sets) == 1 and _addr_of_point(sets[0]["inner"][1])
+            if in_place:
+                okc = True                   # the kernel reads the centre where it lies: &xy_area[2*i]
+            else:
+                xyname = text(args[6])
+                xs = {show(e.idx): e for e in ce.effects if e.arr == xyname and e.op == "=" and not e.conds}
+                okc = set(xs) >= {"0", "1"} and cq.same_expr(xs["0"].val, f"xy_area[2*{iv}]") and cq.same_expr(xs["1"].val, f"xy_area[2*{iv}+1]")
     rep.check(okc, "R16.a", file, "c_intersect", "point i = centre of catchment cell i, located in the coarse grid with c_coord2cell(grid geometry, 1, xy, cell)", "", line=loop.get("_line"))
     # the weights count the centres c_coord2cell places in each coarse cell: its half-open inside test and numbering (decided for C07) are
     # what makes a centre on the top / right edge of the coarse grid fall outside, and the weights add up to the overlap
@@ -107,7 +124,7 @@ def run(rep):
     rep.floor("c_coord2cell clauses taken over from C07", nb_, 4)
     if not okc or cellname is None:
         return EXPLANATION
-    CELL = f"{cellname}[0]"
+    CELL = cellname if scalar_cell else f"{cellname}[0]"
     alls = cq.stores(ce, "weights") + cq.stores(ce, "idxcells")
     oksk = bool(alls) and all(cq.excluded(e.conds, f"{CELL} < 0", True) or cq.holds(e.conds, f"{CELL} >= 0", True) or _neg_disj(e.conds, f"{CELL} < 0") for e in alls)
     rep.check(oksk, "R16.a", file, "c_intersect", "centres outside the grid (cell -1) or conversion errors contribute nothing", "", line=loop.get("_line"))
